@@ -603,6 +603,18 @@ def d_delegate( ctx ):
                      'popping a path whose levels exist but whose last name is absent returns the tuple of defaults - ( ) or ( default, ) - instead of raising KeyError / returning the default' )
         else:
             res.ok( src, pp, 'pop forwards its optional default as *%s' % va )
+    # pop with a default never raises for a path that names nothing: whatever finds the target level ( self._resolve - a path that back-tracks to
+    # the root -, self.__getitem__ ) runs inside a try whose KeyError handler returns the default when one was given
+    if va:
+        finders = [ c for c in ast.walk( pp ) if is_call_to( c, 'self._resolve', 'self.__getitem__' ) ]
+        for c in finders:
+            prot = [ t_ for t_ in src.ancestors( c ) if isinstance( t_, ast.Try ) and any( c is x for b in t_.body for x in ast.walk( b ))
+                     and any( dotted( h_.type ) == 'KeyError' and any( isinstance( r_, ast.Return ) for r_ in ast.walk( h_ )) for h_ in t_.handlers ) ]
+            if prot:
+                res.ok( src, c, 'pop: %s runs under the handler that answers with the default' % norm_text( ast.unparse( c ))[:40] )
+            else:
+                res.bad( src, c, 'pop: %s can raise KeyError past the default' % norm_text( ast.unparse( c ))[:40],
+                         "d.pop( 'a..', default ) raises although get() and membership treat the path as absent: pop with a default must return it" )
     sa = src.get( 'dotdict_base.__setattr__' )
     if any( is_call_to( n, 'self.__setitem__' ) for n in ast.walk( sa )):
         res.ok( src, sa, '__setattr__ delegates to __setitem__' )
@@ -816,6 +828,31 @@ def d_resolve( ctx ):
                 wrong_[0][0], 'continue' if wrong_[0][1] else 'stop', len( wrong_ ), len( samples )))
         else:
             res.ok( src, bal[0], "a cut index expression is extended exactly while its brackets are unbalanced (%d sample segments)" % len( samples ))
+    # the bracket-balancing step keeps what follows the segment: when the closing bracket was found and a '.' follows it, the remainder - even
+    # an EMPTY one ( a trailing dot ) - is the rest of the key; only when no '.' follows is there no rest.  ( `rest or None` turns the empty
+    # rest into "no rest": 'l[i.j].' is then a member and assignable although it names nothing, unlike 'l[0].' )
+    from .fold import run_block
+    parts = [ a_ for a_ in ast.walk( fn ) if isinstance( a_, ast.Assign ) and isinstance( a_.targets[0], ast.Tuple ) and len( a_.targets[0].elts ) == 3
+              and isinstance( a_.value, ast.Call ) and isinstance( a_.value.func, ast.Attribute ) and a_.value.func.attr == 'partition' and try_fold( a_.value.args[0] ) == '.' ]
+    if len( parts ) == 1:
+        par_ = src.parent.get( parts[0] )
+        blk_ = next(( getattr( par_, f_ ) for f_ in ( 'body', 'orelse' ) if parts[0] in getattr( par_, f_, [] )), [] )
+        k_ = blk_.index( parts[0] )
+        REST = dotted( parts[0].value.func.value )
+        frag = [ parts[0] ] + [ st for st in blk_[k_ + 1:] if isinstance( st, ast.Assign ) and any( isinstance( t_, ast.Name ) and t_.id == REST for t_ in st.targets ) ]
+        for given, want in (( 'j]', None ), ( 'j].', '' ), ( 'j].x.y', 'x.y' )):
+            env = { REST: given }
+            try:
+                run_block( frag, env )
+            except NoFold as exc:
+                raise AnalysisError( '_resolve: bracket-balancing step not foldable: %s' % exc )
+            if env.get( REST ) == want and ( env.get( REST ) is None ) == ( want is None ):
+                res.ok( src, parts[0], '_resolve: balancing over %r leaves the rest %r' % ( given, want ))
+            else:
+                res.bad( src, parts[0], '_resolve: balancing over %r leaves the rest %r' % ( given, env.get( REST )),
+                         'specified %r: a key with a trailing dot behind an index expression that contains a dot ( l[i.j]. ) must be refused like l[0]. - as it is it is a member, looks up and can be assigned' % ( want, ))
+    elif parts:
+        raise AnalysisError( '_resolve: %d partition steps' % len( parts ))
     return res
 
 
